@@ -28,6 +28,10 @@ func main() {
 		prop.ReplicaMain(os.Args[2:])
 		return
 	}
+	if id == "__c19prefix" {
+		prop.RecordPrefixMain(os.Args[2:])
+		return
+	}
 	if id == "list" {
 		for _, i := range prop.IDs() {
 			fmt.Println(i)
